@@ -140,6 +140,7 @@ typedef struct {
   char*        log;          // event log since last v_alloc_take_log
   size_t       log_len, log_cap;
   bool         logging;
+  bool         compact;      // log only kind and block id: A3 F3 M4 f4 R4>5 (0 = refused)
 } VAlloc;
 
 static void
@@ -151,6 +152,12 @@ v_alloc_logf(VAlloc* a, const char* fmt, ...)
 {
   if (!a->logging) {
     return;
+  }
+  if (a->compact && fmt[0] != '#') {
+    return;
+  }
+  if (fmt[0] == '#') {
+    ++fmt;
   }
   char    tmp[128];
   va_list ap;
@@ -223,11 +230,14 @@ v_malloc(ZixAllocator* al, size_t size)
   VAlloc* a = (VAlloc*)al;
   if (v_alloc_refuse(a)) {
     v_alloc_logf(a, "m%zu=0", size);
+    if (a->compact) v_alloc_logf(a, "#M0");
     return NULL;
   }
   void* p = malloc(size ? size : 1);
   memset(p, 0xA5, size);
-  v_alloc_logf(a, "m%zu=%d", size, v_alloc_register(a, p, size, false));
+  const int mid = v_alloc_register(a, p, size, false);
+  v_alloc_logf(a, "m%zu=%d", size, mid);
+  if (a->compact) v_alloc_logf(a, "#M%d", mid);
   return p;
 }
 
@@ -237,10 +247,13 @@ v_calloc(ZixAllocator* al, size_t n, size_t size)
   VAlloc* a = (VAlloc*)al;
   if (v_alloc_refuse(a)) {
     v_alloc_logf(a, "c%zux%zu=0", n, size);
+    if (a->compact) v_alloc_logf(a, "#C0");
     return NULL;
   }
   void* p = calloc(n * size ? n * size : 1, 1);
-  v_alloc_logf(a, "c%zux%zu=%d", n, size, v_alloc_register(a, p, n * size, false));
+  const int cid = v_alloc_register(a, p, n * size, false);
+  v_alloc_logf(a, "c%zux%zu=%d", n, size, cid);
+  if (a->compact) v_alloc_logf(a, "#C%d", cid);
   return p;
 }
 
@@ -252,15 +265,16 @@ v_realloc(ZixAllocator* al, void* ptr, size_t size)
   int     id = b ? b->id : (ptr ? -1 : 0);
   if (ptr && !b) {
     ++a->n_errors;
-    v_alloc_logf(a, "ERR-realloc-foreign");
+    v_alloc_logf(a, "#ERR-realloc-foreign");
     return NULL;
   }
   if (b && b->aligned) {
     ++a->n_errors;
-    v_alloc_logf(a, "ERR-realloc-of-aligned-b%d", id);
+    v_alloc_logf(a, "#ERR-realloc-of-aligned-b%d", id);
   }
   if (v_alloc_refuse(a) || size > V_ALLOC_LIMIT) {
     v_alloc_logf(a, "r%d:%zu=0", id, size);
+    if (a->compact) v_alloc_logf(a, "#R%d>0", id);
     return NULL;
   }
   // Always move, so that stale pointers into the old block are caught by ASan
@@ -271,7 +285,9 @@ v_realloc(ZixAllocator* al, void* ptr, size_t size)
     b->live = false;
     free(ptr);
   }
-  v_alloc_logf(a, "r%d:%zu=%d", id, size, v_alloc_register(a, p, size, false));
+  const int rid = v_alloc_register(a, p, size, false);
+  v_alloc_logf(a, "r%d:%zu=%d", id, size, rid);
+  if (a->compact) v_alloc_logf(a, "#R%d>%d", id, rid);
   return p;
 }
 
@@ -285,14 +301,15 @@ v_free_common(VAlloc* a, void* ptr, bool aligned_entry)
   VBlock* b = v_alloc_find(a, ptr);
   if (!b) {
     ++a->n_errors;
-    v_alloc_logf(a, "ERR-free-foreign-or-double");
+    v_alloc_logf(a, "#ERR-free-foreign-or-double");
     return;
   }
   if (b->aligned != aligned_entry) {
     ++a->n_errors;
-    v_alloc_logf(a, "ERR-free-wrong-entry-b%d", b->id);
+    v_alloc_logf(a, "#ERR-free-wrong-entry-b%d", b->id);
   }
   v_alloc_logf(a, "%c%d", aligned_entry ? 'F' : 'f', b->id);
+  if (a->compact) v_alloc_logf(a, "#%c%d", aligned_entry ? 'F' : 'f', b->id);
   b->live = false;
   free(ptr);
   if (a->n_blocks > 4096 && (a->next_id & 1023) == 0) {
@@ -312,6 +329,7 @@ v_aligned_alloc(ZixAllocator* al, size_t alignment, size_t size)
   VAlloc* a = (VAlloc*)al;
   if (v_alloc_refuse(a)) {
     v_alloc_logf(a, "A%zu:%zu=0", alignment, size);
+    if (a->compact) v_alloc_logf(a, "#A0");
     return NULL;
   }
   void* p = NULL;
@@ -320,7 +338,9 @@ v_aligned_alloc(ZixAllocator* al, size_t alignment, size_t size)
     abort();
   }
   memset(p, 0xA5, size);
-  v_alloc_logf(a, "A%zu:%zu=%d", alignment, size, v_alloc_register(a, p, size, true));
+  const int aid = v_alloc_register(a, p, size, true);
+  v_alloc_logf(a, "A%zu:%zu=%d", alignment, size, aid);
+  if (a->compact) v_alloc_logf(a, "#A%d", aid);
   return p;
 }
 
